@@ -190,13 +190,18 @@ TranscribeOK ==
 \* ---------- constant values used by the .cfg files -------------------------
 ValsInt1 == << <<16, 5>> >>
 ValsMix  == << <<16, 5>>, <<68>>, <<20, 1, 120>> >>
-ValsAll  == << <<16, 5>>, <<16, 251>>, <<17, 128, 0>>, <<17, 127, 255>>, <<18, 0, 128, 0, 0>>, <<18, 255, 127, 255, 255>>,
+ValsAll  == << <<16, 5>>, <<16, 251>>, <<16, 127>>, <<16, 128>>, <<17, 255, 127>>, <<17, 0, 128>>, <<18, 255, 255, 255, 127>>, <<18, 0, 0, 0, 128>>,
+               <<19, 255, 255, 255, 255, 255, 255, 255, 127>>, <<19, 0, 0, 0, 0, 0, 0, 0, 128>>, <<17, 128, 0>>, <<17, 127, 255>>, <<18, 0, 128, 0, 0>>, <<18, 255, 127, 255, 255>>,
                <<19, 0, 0, 0, 128, 0, 0, 0, 0>>, <<19, 255, 255, 255, 127, 255, 255, 255, 255>>,
                <<19, 1, 2, 3, 4, 5, 6, 7, 136>>,
                <<68>>, <<69>>, <<70, 0, 0, 0, 0, 0, 0, 240, 63>>, <<70, 1, 0, 0, 0, 0, 0, 248, 255>>,
                <<20, 0>>, <<20, 1, 120>>, <<20, 2, 0, 200>>, <<24, 0>>, <<24, 1, 170>>, <<24, 2, 0, 255>> >>
 NamesAB  == << <<97>>, <<98>>, <<99>> >>
 NamesRich == << <<>>, <<0>>, <<97>>, <<97, 0>>, <<97, 97>>, <<98>>, <<128>>, <<255>> >>
+Rep(b, n) == [i \in 1..n |-> b]
+\* names whose length prefix needs 1 and 2 bytes (127 / 128) around short ones
+NamesLong == << <<97>>, Rep(109, 127), Rep(109, 128), <<122>> >>
+LookLong == {<<97>>, <<98>>, Rep(109, 127), Rep(109, 128), Rep(109, 129), <<122>>, <<123>>}
 LookAB   == {<<>>, <<97>>, <<97, 97>>, <<98>>, <<99>>, <<100>>}
 LookRich == {<<>>, <<0>>, <<97>>, <<97, 0>>, <<97, 97>>, <<97, 98>>, <<98>>, <<127>>, <<128>>, <<255>>, <<255, 0>>}
 OpsWalk  == {"enter", "next", "leave"}
